@@ -8,7 +8,7 @@ REST = (
 GOOGLE = (
     "Header line.\n\nMore header.\n\n"
     "Args:\n  a (int): desc a\n\n"
-    "Returns:\n  str: ret\n"
+    "Returns:\n  str:\n   ret\n"
 )
 NUMPY = (
     "Header line.\n\nMore header.\n\n"
@@ -25,3 +25,20 @@ def indented(doc, n):
     pad = " " * n
     lines = doc.split("\n")
     return "\n".join([lines[0]] + [(pad + l) if l else l for l in lines[1:]]) + "\n" + pad
+
+
+MARK = "\ue000"
+
+
+def hole_is_name(doc, pos, mode):
+    """concrete probe: does a character placed at this hole end up inside a parameter NAME?  Names become dict keys,
+    and inserting a symbolic key hashes (realises) it (DESIGN.md 2.2), so such holes range over printable ASCII only."""
+    import cdd.class_.parse  # noqa: F401
+    from cdd.shared.docstring_parsers import parse_docstring
+
+    d = doc[:pos] + MARK + (doc[pos:] if mode == "ins" else doc[pos + 1:])
+    try:
+        ir = parse_docstring(d)
+    except Exception:
+        return False
+    return any(MARK in k for k in ir["params"])
